@@ -67,7 +67,7 @@ def said(q):
 # --------------------------------------------------------------------------------------------------
 # substances
 
-def make_substances(rng, n=None, fixtures=True):
+def make_substances(rng, n=None, fixtures=True, same_names=0.0):
     pp = PP()
     S = pp.Substance
     out = []
@@ -100,6 +100,15 @@ def make_substances(rng, n=None, fixtures=True):
     # guarantee at least one liquid (solvents) and, usually, each kind
     if not any(s.is_liquid() for s in out):
         out.append(S.liquid('liqX', 46.07, 0.789))
+    if same_names and rng.random() < same_names:
+        # two different substances that happen to carry the same name (another grade / hydrate / supplier): a substance is
+        # identified by all its properties, not by its name
+        twin_of = rng.choice([x for x in out if not x.is_enzyme()])
+        if twin_of.is_liquid():
+            out.append(S.liquid(twin_of.name, round(twin_of.mol_weight * rng.uniform(1.1, 2.0), 3), round(twin_of.density * rng.uniform(1.05, 1.4), 3)))
+        else:
+            out.append(S.solid(twin_of.name, round(twin_of.mol_weight + 18.0153 * rng.randint(1, 6), 4)))
+        M.bucket('substances/same_name_different_substance')
     return out
 
 
@@ -290,7 +299,10 @@ class World:
     def __init__(self, rng, case, max_plate=(4, 6), subs=None):
         self.rng = rng
         self.case = case
-        self.subs = subs or make_substances(rng)
+        # (same-named pairs only where every oracle in play identifies substances by object: conservation, aliquots,
+        # feasibility, immutability, observers, removal)
+        self.subs = subs or make_substances(rng, same_names=0.08 if (case or {}).get('prop') in (
+            'C01', 'C02', 'C03', 'C04', 'C10', 'C17') else 0.0)
         self.objs = {}
         self.log = []
         self.history = []          # (value, fingerprint at return time, step number)
